@@ -18,6 +18,9 @@ pub fn test_prog(c: &ProgCase) -> Verdict {
         return Verdict::discard();
     };
     let ctx = |what: &str| format!("{what}\n {}", show_case(c));
+    if base.bad_exempt {
+        return Verdict::fail(ctx("a guard was given the cost-exempt (pre-hard-fork) operator set although NEW_COST_MODEL is not set"));
+    }
     match &base.out {
         Out::Panic(m) => Verdict::fail(ctx(&format!("panic at budget {top}: {m}"))),
         Out::Ok { cost, val } => {
